@@ -374,7 +374,19 @@ def silent_eof_exits(ctx, modnames):
                     raises = any(isinstance(x, ast.Raise) for st in iff.body for x in ast.walk(st))
                     leaves = any(isinstance(x, (ast.Break, ast.Return)) for st in iff.body for x in ast.walk(st))
                     later = [c for c in post_checks if c.lineno > loop.end_lineno]
-                    if leaves and not raises and not later:
+                    # the function must hand the collected BYTES back (a function that folds the chunks into something else -- a running
+                    # checksum -- returns no short value: there the mismatch of the result is what reports the truncation)
+                    acc = set()
+                    for n in ast.walk(loop):
+                        if isinstance(n, ast.Call) and isinstance(n.func, ast.Attribute) and n.func.attr in ("append", "extend", "write") and \
+                                isinstance(n.func.value, ast.Name) and any(isinstance(x, ast.Name) and x.id in chunks for a_ in n.args for x in ast.walk(a_)):
+                            acc.add(n.func.value.id)
+                        if isinstance(n, ast.AugAssign) and isinstance(n.op, ast.Add) and isinstance(n.target, ast.Name) and \
+                                any(isinstance(x, ast.Name) and x.id in chunks for x in ast.walk(n.value)):
+                            acc.add(n.target.id)
+                    hands_back = any(isinstance(r_, ast.Return) and r_.value is not None and
+                                     ({x.id for x in ast.walk(r_.value) if isinstance(x, ast.Name)} & (acc | chunks)) for r_ in ast.walk(fn))
+                    if leaves and not raises and not later and hands_back:
                         q, _f = enclosing(qidx, src.tree, iff)
                         out.append({"function": f"{mn}:{q}", "stmt": "if " + ast.unparse(iff.test)[:60] + ": " + "; ".join(ast.unparse(x)[:30] for x in iff.body)[:60],
                                     "file": src.rel, "line": iff.lineno})
